@@ -233,16 +233,36 @@ Print Assumptions C19_old_four_slot_wrapper_refuted.
    KeyError on missing keys) is not replayed against the implementation inside Coq; the
    implementation is checked on scheduled runs by the property oracle only.  Not claimed under
    interleaving: the size bound and "f invoked exactly on misses" (two concurrent misses both
-   invoke f). *)
+   invoke f), and freshness (refuted below, finding F-C19-2).
+   Full statement: forall schedules, every returned value was produced by an invocation of f for
+   arguments with the caller's own key, made no longer ago than the validity period. *)
 Theorem C19_lru_interleaving_own_key_partial :
   forall (A K R : Type) (key : A -> K) (keqb : K -> K -> bool) (f : A -> N -> R) (valid : option Z) (mx : nat),
   (forall x y, keqb x y = true <-> x = y) ->
   forall (t0 : Z) (args : list A) (sch : list sched),
-  let st := lcrun key keqb f mx valid sch (mkLS [] 0 t0 0, map (fun a => mkLT a LTime) args) in
+  let st := lcrun key keqb f mx valid sch (mkLS [] 0 t0 0 [], map (fun a => mkLT a LTime) args) in
   forall (t : @lthread A K R) (r : R), In t (snd st) -> lreturned t = Some r ->
     exists a' n, key a' = key (lt_arg t) /\ (n < ls_calls (fst st))%N /\ r = f a' n.
 Proof. exact lru_returns_own_key. Qed.
 Print Assumptions C19_lru_interleaving_own_key_partial.
+
+(* Finding F-C19-2.  The freshness half of the statement fails for the LRU wrapper under
+   interleaving: validity 5, two callers with equal arguments on an empty cache.  Caller 0 reads the
+   clock (1000), sweeps, misses, invokes f and is paused before storing; the clock advances by 6;
+   caller 1 reads the clock (1006) and sweeps (nothing to expire); caller 0 stores its entry with
+   timestamp 1000; caller 1 finds the key, and returns the value computed at 1000 although
+   1006 - 1000 > 5.  (single_item_cache compares the timestamp of the entry it has read and is
+   immune: C19_sic_interleaving_returns_own.) *)
+Theorem C19_lru_interleaving_freshness_refuted :
+  let st := lcrun ckey_of ckeqb cf 2 (Some 5%Z) lru2_sched lru2_init in
+  let st' := lcstep ckey_of ckeqb cf 2 (Some 5%Z) st (SStep 1) in
+  exists t now t' r a' tc,
+    nth_error (snd st) 1 = Some t /\ lt_pc t = LGet now /\
+    nth_error (snd st') 1 = Some t' /\ lreturned t' = Some r /\
+    nth_error (ls_log (fst st')) 0 = Some (a', tc) /\ r = cf a' 0 /\
+    fresh (Some 5%Z) now tc = false.
+Proof. exact lru_interleaving_stale. Qed.
+Print Assumptions C19_lru_interleaving_freshness_refuted.
 
 (* ------------------------- non-vacuity ------------------------- *)
 Definition ex_a : carg := ([1%Z], []).
@@ -309,11 +329,11 @@ Proof. split; reflexivity. Qed.
 Example ex_lru_interleaving_raise :
   map lreturned (snd (lcrun ckey_of ckeqb cf 2 None
         (repeat (SStep 0) 3 ++ repeat (SStep 1) 12 ++ repeat (SStep 0) 3)
-        (mkLS [] 0 1000 0, [mkLT ex_a LTime; mkLT ex_b LTime])))
+        (mkLS [] 0 1000 0 [], [mkLT ex_a LTime; mkLT ex_b LTime])))
   = [None; Some (ex_b, 0%N)] /\
   map (fun t => match lt_pc t with LDone None => true | _ => false end)
       (snd (lcrun ckey_of ckeqb cf 2 None
         (repeat (SStep 0) 3 ++ repeat (SStep 1) 12 ++ repeat (SStep 0) 3)
-        (mkLS [] 0 1000 0, [mkLT ex_a LTime; mkLT ex_b LTime])))
+        (mkLS [] 0 1000 0 [], [mkLT ex_a LTime; mkLT ex_b LTime])))
   = [true; false].
 Proof. split; reflexivity. Qed.
